@@ -680,8 +680,8 @@ effect of every reallocating path (object_impl.hpp `insert` ×3 reallocating bra
 `vAllocReq` / `bAllocReq` give the request such a member would make (same branch conditions as the member), the `…F`
 functions place the throw there and otherwise run the member.  Members that allocate repeatedly (`insert_impl` for input
 iterators, the constructors built on it, `read_from` = `Buffer{0U}` + `resize_write_area`) thread the schedule through their
-steps; a constructor that throws leaves no object behind (its register is null) — and no destructor runs for the object under
-construction, so what its earlier steps allocated stays allocated (`constructF`). -/
+steps; a constructor that throws leaves no object behind (its register is null) and no destructor runs for the object under
+construction; the range constructor gives back what its earlier steps allocated before it rethrows (`constructF`). -/
 
 inductive Out (σ : Type) where
   | done (s : σ)
@@ -746,8 +746,13 @@ def vstepF (i : Inj) (g : Nat → Nat → Nat) (h : Heap) (v : RV) : VOp → M (
       | Option.none => pure (.threw (h, v, Option.none), i)
       | some i' => do let r ← vstep g h v o; pure (.done r, i')
 
-/-- constructors: `impl_{alloc}` (null pointers), then the insert the constructor body calls -/
-def constructF (i : Inj) (g : Nat → Nat → Nat) (h : Heap) : Ctor → M (Out (Heap × RV) × Inj)
+/-- constructors: `impl_{alloc}` (null pointers), then the insert the constructor body calls.  No destructor runs for an object
+whose constructor throws; the range constructor `object(In, In, A const&)` therefore catches, gives back what the single-pass
+insertion has made it allocate (`this->deallocate()`) and rethrows (fix db1a7e0; `catchRange := false` is the constructor before
+the fix, which left that store allocated).  The count and initializer_list constructors allocate at most once, before anything
+is owned. -/
+def constructF (i : Inj) (g : Nat → Nat → Nat) (h : Heap) (c : Ctor) (catchRange : Bool := true) : M (Out (Heap × RV) × Inj) :=
+  match c with
   | .dflt => pure (.done (h, RV.null), i)
   | c =>
     let o : VOp := match c with
@@ -755,10 +760,17 @@ def constructF (i : Inj) (g : Nat → Nat → Nat) (h : Heap) : Ctor → M (Out 
       | .range xs fwd => .insertRange 0 xs fwd
       | .il xs => .insertRange 0 xs true
       | .dflt => .clear
+    let catches : Bool := match c with
+      | .range _ _ => catchRange
+      | _ => false
     do
     let r ← vstepF i g h RV.null o
     match r.1 with
-    | .threw s => pure (.threw (s.1, s.2.1), r.2)
+    | .threw s =>
+      if catches then do
+        let h1 ← deallocate s.1 s.2.1
+        pure (.threw (h1, RV.null), r.2)
+      else pure (.threw (s.1, s.2.1), r.2)
     | .done s => pure (.done (s.1, s.2.1), r.2)
 
 /-- the request `resize_write_area(sz)` would make -/
